@@ -1368,6 +1368,14 @@ async fn exec(ctx: &mut Ctx, line: &str) -> OpResult {
                         (fut, Some(topic), None)
                     }
                 }
+                "DST" => {
+                    // DeleteSubscription with the mailbox of its TOPIC saturated (the deletion waits for the topic)
+                    let sub_name = t.str().map_err(bad)?;
+                    let topic_name = t.str().map_err(bad)?;
+                    let sub = get_sub(&sub_name).ok_or_else(|| bad("XC: no such subscription".into()))?;
+                    let topic = get_topic(&topic_name).ok_or_else(|| bad("XC: no such topic".into()))?;
+                    (Box::pin(async move { let _ = sub.delete().await; }), Some(topic), None)
+                }
                 "DS" | "PULL" | "ACK" => {
                     let sub_name = t.str().map_err(bad)?;
                     let sub = get_sub(&sub_name).ok_or_else(|| bad("XC: no such subscription".into()))?;
